@@ -170,6 +170,16 @@ pub fn incremental_decrypt(rounds: usize, key: &[u8], nonce: &[u8; 12], aad: &[u
 }
 
 fn frag(rng: &mut Rng, remaining: usize) -> usize {
+    // now and then one large piece (thresholds that block-wise or strided implementations pick: 4 KiB, 16 KiB) or
+    // everything that is left in one call
+    if remaining > 300 {
+        match rng.below(24) {
+            0 => return remaining,
+            1 => return (rng.range(4000, 20000) as usize).min(remaining),
+            2 => return [4096usize, 4097, 16384, 16385][rng.below(4) as usize].min(remaining),
+            _ => {}
+        }
+    }
     let n = match rng.below(10) {
         0 => 0,
         1 => 1,
@@ -182,6 +192,12 @@ fn frag(rng: &mut Rng, remaining: usize) -> usize {
         _ => rng.below(200) as usize,
     };
     n.min(remaining).max(if remaining > 0 && rng.chance(9, 10) { 1 } else { 0 }).min(remaining)
+}
+
+/// lengths around the sizes at which buffered / strided implementations switch paths
+pub fn aead_len_huge(rng: &mut Rng) -> usize {
+    const MENU: [usize; 14] = [4095, 4096, 4097, 8191, 8192, 8193, 16383, 16384, 16385, 20000, 32768, 65536, 65537, 70000];
+    *rng.pick(&MENU)
 }
 
 pub fn aead_len(rng: &mut Rng, big: bool) -> usize {
@@ -273,6 +289,7 @@ impl Scenario for AeadFlow {
         t.set_p("receiver_oneshot", rng.chance(1, 2) as u64);
         t.set_p("recv_seed", rng.data_seed());
         let big = tier == Tier::Thorough || rng.chance(1, 12);
+        let huge = rng.chance(1, 30);
         let naad = rng.range(0, 3);
         for _ in 0..naad {
             let dseed = match rng.below(10) { 0 => 0, 1 => 1, _ => rng.data_seed() };
@@ -287,7 +304,11 @@ impl Scenario for AeadFlow {
                 handles += 1;
             }
             let h = rng.below(handles as u64) as u8;
-            t.ops.push(Op::new(h, F_DATA).len(aead_len(rng, big)).seed(match rng.below(5) { 0 => 0, _ => rng.data_seed() }).off(rng.below(2) as u8));
+            let len = if huge && rng.chance(1, 2) { aead_len_huge(rng) } else { aead_len(rng, big) };
+            t.ops.push(Op::new(h, F_DATA).len(len).seed(match rng.below(5) { 0 => 0, _ => rng.data_seed() }).off(rng.below(2) as u8));
+        }
+        if huge && rng.chance(1, 3) {
+            t.ops.insert(0, Op::new(0, F_AAD).len(aead_len_huge(rng)).seed(rng.data_seed()).off(rng.below(32) as u8));
         }
         // sometimes AAD arrives after a fork that is still in the AAD phase
         if fork_ok && rng.chance(1, 6) {
@@ -316,13 +337,13 @@ impl Scenario for AeadFlow {
                     if !hd.obj.in_aad_phase() {
                         continue; // the type system forbids AAD after to_encryption
                     }
-                    let a = Aligned::new(op.seed, (op.len as usize).min(8192), (op.off % 32) as usize);
+                    let a = Aligned::new(op.seed, (op.len as usize).min(131072), (op.off % 32) as usize);
                     guarded(|| hd.obj.add_data(a.get())).map_err(|m| Violation::new("unexpected-panic", i, "add_data", m, "aead"))?;
                     hd.aad.extend_from_slice(a.get());
                 }
                 F_DATA => {
                     let hd = &mut hs[h];
-                    let d = data(op.seed, (op.len as usize).min(8192));
+                    let d = data(op.seed, (op.len as usize).min(131072));
                     if hd.obj.in_aad_phase() {
                         guarded(|| hd.obj.to_encryption()).map_err(|m| Violation::new("unexpected-panic", i, "to_encryption", m, "aead"))?;
                     }
@@ -641,8 +662,9 @@ impl Scenario for AeadTamper {
         let mut t = Trace::new("aeadtamper", "chacha20poly1305");
         gen_common(rng, &mut t);
         let big = tier == Tier::Thorough && rng.chance(1, 4);
-        let aad_len = aead_len(rng, big);
-        let pt_len = aead_len(rng, big);
+        let huge = rng.chance(1, 120);
+        let aad_len = if huge && rng.chance(1, 4) { aead_len_huge(rng) } else { aead_len(rng, big) };
+        let pt_len = if huge { aead_len_huge(rng) } else { aead_len(rng, big) };
         t.set_p("aad_len", aad_len as u64);
         t.set_p("pt_len", pt_len as u64);
         t.set_p("aad_seed", match rng.below(6) { 0 => 0, _ => rng.data_seed() });
@@ -655,8 +677,8 @@ impl Scenario for AeadTamper {
     fn execute(&self, t: &Trace, obs: &mut Obs) -> Result<(), Violation> {
         let rounds = rounds_of(t);
         let (key, nonce) = key_nonce(t);
-        let aad = data(t.p("aad_seed"), (t.p("aad_len") as usize).min(8192));
-        let pt = data(t.p("pt_seed"), (t.p("pt_len") as usize).min(8192));
+        let aad = data(t.p("aad_seed"), (t.p("aad_len") as usize).min(131072));
+        let pt = data(t.p("pt_seed"), (t.p("pt_len") as usize).min(131072));
         // honest sender (real code)
         let (ct, tag) = guarded(|| oneshot_encrypt(rounds, &key, &nonce, &aad, &pt)).map_err(|m| Violation::new("unexpected-panic", 0, "one-shot encrypt", m, "aead"))?;
         let honest = Tuple { key: key.clone(), nonce, aad: aad.clone(), ct, tag };
